@@ -212,6 +212,21 @@ def run(ctx):
             # (arithmetic the script itself gets wrong -- a division by zero, an overflow -- is its own run-time error, not the compiler's)
             if st.startswith('ABORT') and st not in ('ABORT:zerodiv', 'ABORT:overflow', 'ABORT:value'):
                 ctx.counterexample('C06/valid-expression-stops-the-machine', 'the accepted text %r stops the machine: %s after %r' % (t[:120], st, evs[-3:]), {'text': t})
+    # every command with every operand form: what is accepted runs without an internal fault of the machine (D66: `on L row 1`)
+    cmd_world = [('Candle', 'g', 'l', ('matrix', 5, 6)), ('Strip', 'g', 'l', ('multi', 8)), ('Top', 'h', 'l', ('plain',))]
+    for action in ('set', 'on', 'off'):
+        for target in ('"Candle"', '"Strip"', '"Top"', '"nobody"', 'group "g"', 'location "l"', 'all'):
+            for suffix in ('', ' zone 1', ' zone 1 2', ' row 1', ' column 1', ' row 1 2 column 0 1', ' begin stage row 1 end', ' and "Top"', ' row 1 and "Top" column 0'):
+                t = 'hue 120 %s %s%s' % (action, target, suffix)
+                o = observe(t)
+                ctx.count()
+                if 'raises' in o:
+                    ctx.counterexample('C06/compiler-raises-' + o['raises'].split(':')[0].strip(), 'compiling %r raises %s' % (t, o['raises']), {'text': t})
+                elif o['ok'] and o.get('program') is not None:
+                    ctx.nontriv(t)
+                    st, evs = lang.run_program_impl(o['program'], cmd_world, max_steps=3000)
+                    if st.startswith('ABORT') and st not in ('ABORT:zerodiv', 'ABORT:value', 'ABORT:type'):
+                        ctx.counterexample('C06/accepted-command-stops-the-machine', 'the accepted text %r stops the machine: %s' % (t, st), {'text': t, 'world': cmd_world})
     for t in ['\u00e9\u00e8 hue 5', 'set "\u4e2d\u6587"', 'define \u03c0 3', '\u0661\u0662:\u0663\u0660', 'print "\U0001F4A1"', 'hue \u00b2', 'x\u00a0y', '\ufeffhue 1']:
         o = observe(t)
         ctx.count()
